@@ -65,7 +65,9 @@ fn cfg(name: &str, widths: &[u16], initial: (u64, u64), limit: usize, allowance:
 
 /// (configuration, deviation bound); simplest first.
 fn cfgs(quick: bool) -> Vec<(Cfg, usize)> {
-    let answers_reps = Menu { all_positions: false, ..Menu::answers_only() };
+    let answers_reps = Menu { all_positions: false, pairs: true, ..Menu::answers_only() };
+    let answers_pairs = Menu { pairs: true, ..Menu::answers_only() };
+    let balanced = |m: Menu| Menu { balanced_default: true, ..m };
     let env = |prune: Vec<u64>, all_positions: bool| Menu {
         all_positions,
         timeouts: true,
@@ -75,23 +77,31 @@ fn cfgs(quick: bool) -> Vec<(Cfg, usize)> {
         prune,
         report_highest: vec![],
         clock: true,
+        pairs: true,
+        balanced_default: false,
     };
     let mut v = vec![];
     // 1. one block of width 2: every answer order x every success/timeout assignment (4!·2^4)
     v.push((cfg("w2-exhaustive", &[2], (1, 1), 1, 0, 8, Menu::answers_only()), 8));
     // 2. two blocks of width 2 sampled concurrently, every outstanding request answerable
-    v.push((cfg("w2x2-concurrent", &[2, 2], (1, 2), 2, 0, 12, Menu::answers_only()), if quick { 3 } else { 5 }));
+    v.push((cfg("w2x2-concurrent", &[2, 2], (1, 2), 2, 0, 12, answers_pairs.clone()), if quick { 3 } else { 5 }));
+    // 2b. the same with the default path keeping both blocks level (A,B,A,B,...): every state
+    // "each block has k requests left" is on the default path, so two blocks finishing in the
+    // same poll of the Daser task (one pair delivery) is a single deviation
+    v.push((cfg("w2x2-balanced", &[2, 2], (1, 2), 2, 0, 12, balanced(answers_pairs.clone())), if quick { 2 } else { 4 }));
     // 3. one block of width 4 (16 samples = the whole square)
     v.push((cfg("w4-single", &[4], (1, 1), 1, 0, 20, answers_reps.clone()), if quick { 3 } else { 4 }));
     v.push((cfg("w4-single-all-positions", &[4], (1, 1), 1, 0, 20, Menu::answers_only()), 2));
     // 4. widths 8..64 (16 of many), store growing
     v.push((cfg("wide-8-16-32-64", &[8, 16, 32, 64], (1, 1), 1, 1, 90, Menu { insert_head: true, ..answers_reps.clone() }), 2));
     // 5. more blocks in flight
-    v.push((cfg("w2x3-concurrent", &[2, 2, 2], (1, 3), 3, 0, 16, Menu::answers_only()), if quick { 2 } else { 3 }));
+    v.push((cfg("w2x3-concurrent", &[2, 2, 2], (1, 3), 3, 0, 16, answers_pairs.clone()), if quick { 2 } else { 3 }));
+    v.push((cfg("w2x3-balanced", &[2, 2, 2], (1, 3), 3, 0, 16, balanced(answers_pairs.clone())), 2));
     v.push((cfg("w4+w2-concurrent", &[4, 2], (1, 2), 2, 0, 24, answers_reps.clone()), if quick { 2 } else { 3 }));
     // 6. store growing and pruned, peers lost and regained, clock advancing
     v.push((cfg("growing-pruned", &[2, 2, 2, 4], (1, 2), 2, 1, 72, env(vec![1, 2], false)), 2));
     v.push((cfg("growing-pruned-small", &[2, 2, 2], (1, 2), 2, 1, 40, env(vec![1, 2], false)), if quick { 2 } else { 3 }));
+    v.push((cfg("growing-pruned-balanced", &[2, 2, 2, 4], (1, 2), 2, 1, 72, balanced(env(vec![1, 2], false))), 2));
     if !quick {
         v.push((cfg("growing-pruned-all-positions", &[2, 2, 2, 4], (1, 2), 2, 1, 72, env(vec![1, 2], true)), 2));
         v.push((cfg("growing-pruned-deep", &[2, 2, 2, 4], (1, 2), 2, 1, 72, env(vec![2], false)), 3));
@@ -148,7 +158,7 @@ fn main() {
         &ctx,
         rep,
         Spec {
-            rule: "E1: random_indexes(w,16) for w in 1..=64 ∪ {65,127,128,255,256,512,1024,4096,65535}, 8 calls each. E3: real Daser over InMemoryStore+mocked P2p, executions = sequences of environment events (answer outstanding sample request k with a valid sample / RequestTimedOut, insert next head, WantToPrune/remove, disconnect/reconnect, advance clock 61 s / 5 h), choice 0 = answer oldest request successfully; cfg w2-exhaustive: all 4!·2^4 answer orders x success/timeout assignments of one width-2 block; w2x2-concurrent: two width-2 blocks in flight, <=3 (quick) / 5 (thorough) deviations over all outstanding positions; w4-single: 16 samples, <=3 / 4 deviations over oldest/newest position, and <=2 over all positions; wide-8-16-32-64: heads of width 8,16,32,64 arriving, <=2; w2x3-concurrent: three width-2 blocks in flight, <=2 / 3; w4+w2-concurrent: <=2 / 3; growing-pruned: 4 blocks, limit 2+1, heads arriving, WantToPrune/remove of heights 1,2, disconnect/reconnect, clock, <=2; growing-pruned-small: 3 blocks, <=2 / 3; thorough adds growing-pruned over all positions (<=2) and growing-pruned-deep (<=3, WantToPrune of height 2 only). An execution is non-trivial when it deviates from the all-success default; distinct = distinct choice sequences (states = distinct property-level observation traces)",
+            rule: "E1: random_indexes(w,16) for w in 1..=64 ∪ {65,127,128,255,256,512,1024,4096,65535}, 8 calls each. E3: real Daser over InMemoryStore+mocked P2p, executions = sequences of environment events (answer outstanding sample request k with a valid sample / RequestTimedOut, deliver two answers back-to-back without letting the Daser run in between (oldest outstanding requests of two different blocks, all ordered block pairs x {ok,timeout}^2, one choice), insert next head, WantToPrune/remove, disconnect/reconnect, advance clock 61 s / 5 h), choice 0 = answer oldest request successfully; cfg w2-exhaustive: all 4!·2^4 answer orders x success/timeout assignments of one width-2 block; w2x2-concurrent: two width-2 blocks in flight, <=3 (quick) / 5 (thorough) deviations over all outstanding positions; w2x2-balanced / w2x3-balanced / growing-pruned-balanced: same systems with the default path answering the block with the most outstanding requests first (blocks stay level, so 'every block has one request left' is on the default path), <=2 (w2x2-balanced thorough: 4); w4-single: 16 samples, <=3 / 4 deviations over oldest/newest position, and <=2 over all positions; wide-8-16-32-64: heads of width 8,16,32,64 arriving, <=2; w2x3-concurrent: three width-2 blocks in flight, <=2 / 3; w4+w2-concurrent: <=2 / 3; growing-pruned: 4 blocks, limit 2+1, heads arriving, WantToPrune/remove of heights 1,2, disconnect/reconnect, clock, <=2; growing-pruned-small: 3 blocks, <=2 / 3; thorough adds growing-pruned over all positions (<=2) and growing-pruned-deep (<=3, WantToPrune of height 2 only). An execution is non-trivial when it deviates from the all-success default; distinct = distinct choice sequences (states = distinct property-level observation traces)",
             assumptions: &[
                 "wall clock Time::now() is not seamed: header times are 1 h (inside) / 6 h (outside) old against a 4 h sampling window",
                 "the mocked P2p stands for bitswap: an answer is either a sample that decodes and verifies against the header's DAH (checked when the fixture builds it) or RequestTimedOut; undecodable data never reaches the Daser (ShwapMultihasher rejects it earlier)",
